@@ -5,6 +5,7 @@
 #include "romea_core_common/math/Transformation.hpp"
 #include "romea_core_common/coordinates/PolarCoordinates.hpp"
 #include "romea_core_common/coordinates/SphericalCoordinates.hpp"
+#include "romea_core_common/containers/Eigen/EigenContainers.hpp"
 namespace romea { namespace core {
 template class Interval<double, 1>;
 template class Interval<float, 1>;
@@ -29,6 +30,13 @@ template class Interval<float, 3>;
   template SphericalCoordinates<S> toSpherical<S>(const HomogeneousCoordinates3<S> &); \
   template CartesianCoordinates3<S> toCartesian<S>(const SphericalCoordinates<S> &); \
   template HomogeneousCoordinates3<S> toHomogeneous<S>(const SphericalCoordinates<S> &);
+#define ROMEA_VERIF_CONT(P) std::vector<P, Eigen::aligned_allocator<P>>
+template Eigen::Array2d min<ROMEA_VERIF_CONT(Eigen::Array2d)>(const ROMEA_VERIF_CONT(Eigen::Array2d) &);
+template Eigen::Array2d max<ROMEA_VERIF_CONT(Eigen::Array2d)>(const ROMEA_VERIF_CONT(Eigen::Array2d) &);
+template Eigen::Array3f min<ROMEA_VERIF_CONT(Eigen::Array3f)>(const ROMEA_VERIF_CONT(Eigen::Array3f) &);
+template Eigen::Array3f max<ROMEA_VERIF_CONT(Eigen::Array3f)>(const ROMEA_VERIF_CONT(Eigen::Array3f) &);
+template Eigen::Vector2d mean<ROMEA_VERIF_CONT(Eigen::Vector2d)>(const ROMEA_VERIF_CONT(Eigen::Vector2d) &);
+template Eigen::Vector3f mean<ROMEA_VERIF_CONT(Eigen::Vector3f)>(const ROMEA_VERIF_CONT(Eigen::Vector3f) &);
 ROMEA_VERIF_INST(double)
 ROMEA_VERIF_INST(float)
 }}
